@@ -9,6 +9,12 @@ every labelling, so on that domain a model/implementation disagreement is a conc
 outside it (cyclic graphs, duplicated node ids) only model == implementation is compared.
 An independent pure-Python oracle evaluates the documented definition itself (tracklet edges,
 union-find over them) and the per-tracklet reading (which ids are offending).
+
+Deepening (GeffProps.C13Inv, GeffProps.C13Data; model GeffModel/TrackletData.lean): every case of the main stream is
+also compared VERBATIM — the message strings of the direct call with `validateTrackletsArrays` (driver op "arrays"),
+outcome class + exception arguments of validate_data(tracklet=True) with `validateDataTracks` (op "data"); a dtype /
+memory-layout stream (`run_dtyped`) and histories on one in-memory geff object with re-used configs (`run_histories`)
+go through the same two ops, each with a model-free verdict from the oracles.
 """
 from __future__ import annotations
 
@@ -149,10 +155,54 @@ def impl_obs(case):
         valid, errors = validate_tracklets(*arrs)
     except Exception as ex:  # noqa: BLE001
         return {"exc": type(ex).__name__}
-    out = {"valid": bool(valid), "errors": parse_errors(errors)}
+    out = {"valid": bool(valid), "errors": parse_errors(errors), "messages": [str(m) for m in errors]}
     if before != [(a.tobytes(), str(a.dtype), a.shape) for a in arrs]:
         out["modified"] = True
+    # the same case through validate_data(tracklet=True): outcome class and exception arguments verbatim
+    from geff.validate.data import ValidationConfig
+
+    out["vd"] = vd_outcome(_memory_geff(case), ValidationConfig(tracklet=True))
     return out
+
+
+def vd_outcome(g, cfg):
+    """validate_data(g, cfg): outcome class + exception arguments, verbatim (what the Lean model `validateDataTracks` renders)"""
+    from geff.validate.data import validate_data
+
+    try:
+        validate_data(g, cfg)
+        return {"outcome": "ok"}
+    except (ValueError, KeyError) as ex:
+        return {"outcome": type(ex).__name__, "args": [a if isinstance(a, str) else repr(a) for a in ex.args]}
+    except Exception as ex:  # noqa: BLE001
+        return {"outcome": type(ex).__name__}
+
+
+TNP = {"tracklet-only": [["tracklet", "trk"]], "tracklet,lineage": [["tracklet", "trk"], ["lineage", "lin"]],
+       "lineage,tracklet": [["lineage", "lin"], ["tracklet", "trk"]]}
+
+
+def data_req(c):
+    """request for the model's `data` op mirroring `_memory_geff(c)` validated with ValidationConfig(tracklet=True)"""
+    tnp = TNP[c.get("track_layout", "tracklet-only")]
+    props = []
+    for _k, pn in tnp:
+        if pn == "trk":
+            props.append(["trk", {"values": [str(x) for x in c["labels"]], "missing": c.get("missing")}])
+        else:
+            props.append(["lin", {"values": ["0"] * len(c["nodes"]), "missing": None}])
+    return {"op": "data", "cfg": {"tracklet": True, "lineage": False}, "tnp": tnp, "props": props,
+            "nodes": [str(x) for x in c["nodes"]], "edges": [[str(a), str(b)] for a, b in c["edges"]]}
+
+
+def arrays_req(c):
+    return {"op": "arrays", "nodes": [str(x) for x in c["nodes"]], "labels": [str(x) for x in c["labels"]],
+            "edges": [[str(a), str(b)] for a, b in c["edges"]]}
+
+
+def same_vd(model, impl):
+    """model answer of the `data` op == implementation observation (outcome class; args verbatim when there are any)"""
+    return model.get("outcome") == impl.get("outcome") and model.get("args") == impl.get("args")
 
 
 _MD = {}
@@ -198,18 +248,25 @@ def impl_via_validate_data(case):
 
     g = _memory_geff(case)
     before = snapshot(g)
+    vd = None
     try:
         validate_data(g, ValidationConfig(tracklet=True))
         out = {"valid": True, "errors": []}
+        vd = {"outcome": "ok"}
     except ValueError as ex:
+        vd = {"outcome": "ValueError", "args": [a if isinstance(a, str) else repr(a) for a in ex.args]}
         if len(ex.args) == 2 and str(ex.args[0]).startswith("Found invalid tracklets"):
             out = {"valid": False, "errors": parse_errors(ex.args[1].split("\n"))}
         else:
             out = {"exc": "ValueError"}
     except Exception as ex:  # noqa: BLE001
         out = {"exc": type(ex).__name__}
+        vd = {"outcome": type(ex).__name__}
+        if isinstance(ex, KeyError):
+            vd["args"] = [a if isinstance(a, str) else repr(a) for a in ex.args]
     if snapshot_diff(before, snapshot(g)):
         out["modified"] = True
+    out["vd"] = vd
     return out
 
 
@@ -641,6 +698,350 @@ def forked_map(func, items):
         return pool.map(func, items, chunksize=max(1, len(items) // 64))
 
 
+# ----------------------------------------------------------------- dtype / memory-layout stream
+INT_DTYPES = ["int8", "int16", "int32", "int64", "uint8", "uint16", "uint32", "uint64"]
+LAYOUTS = ["plain", "plain", "readonly", "noncontiguous", "fortran", "bigendian", "rowstrided"]
+
+
+def _meta(layout):
+    import geff_spec
+
+    if layout not in _MD:
+        pm = lambda k: geff_spec.PropMetadata(identifier=k, dtype="int64")  # noqa: E731
+        tnp = dict((k, v) for k, v in TNP[layout])
+        _MD[layout] = geff_spec.GeffMetadata(
+            geff_version="1.0.0", directed=True, node_props_metadata={p: pm(p) for p in tnp.values()},
+            edge_props_metadata={}, track_node_props=dict(tnp))
+    return _MD[layout]
+
+
+def _lay(a, layout):
+    from harness.corr.C12 import variant_array
+
+    if layout == "rowstrided":
+        big = np.zeros((2 * a.shape[0] + 1,) + a.shape[1:], dtype=a.dtype)
+        big[1::2] = a
+        return big[1::2]
+    return variant_array(a, layout)
+
+
+def dtyped_ints(v):
+    c, off, loff = v["case"], v["off"], v["loff"]
+    return ([x + off for x in c["nodes"]], [[a + off, b + off] for a, b in c["edges"]], [x + loff for x in c["labels"]])
+
+
+def impl_dtyped(v):
+    """validate_tracklets and validate_data(tracklet=True) on arrays of independently chosen integer dtypes (node ids, edges,
+    tracklet ids), values shifted to the limits of the dtypes, held read-only / non-contiguous / Fortran / big-endian.
+    The function documents a cast to int64: verdict and named ids must be those of the integer VALUES."""
+    from geff.validate.data import ValidationConfig
+    from geff.validate.tracks import validate_tracklets
+
+    ns, es, ls = dtyped_ints(v)
+    nodes = _lay(np.asarray(ns, dtype=v["nd"]), v["layout"])
+    edges = _lay(np.asarray(es, dtype=v["ed"]).reshape(-1, 2), v["layout"])
+    labels = _lay(np.asarray(ls, dtype=v["ld"]), v["layout"])
+    arrs = [nodes, edges, labels]
+    snap = lambda: [(a.tobytes(), a.dtype.str, a.shape, a.flags.writeable) for a in arrs]  # noqa: E731
+    before = snap()
+    try:
+        valid, errors = validate_tracklets(nodes, edges, labels)
+        out = {"valid": bool(valid), "messages": [str(m) for m in errors], "bad": [e["t"] for e in parse_errors(errors)]}
+    except Exception as ex:  # noqa: BLE001
+        out = {"exc": type(ex).__name__ + ": " + str(ex)[:80]}
+    md = _meta(v["track_layout"])
+    props = {}
+    for pn in md.track_node_props.values():
+        props[pn] = ({"values": labels, "missing": None} if pn == "trk"
+                     else {"values": np.zeros(len(ns), dtype=np.int64), "missing": None})
+    g = {"metadata": md, "node_ids": nodes, "edge_ids": edges, "node_props": props, "edge_props": {}}
+    out["vd"] = vd_outcome(g, ValidationConfig(tracklet=True))
+    out["modified"] = snap() != before
+    return out
+
+
+def dtyped_reqs(v):
+    ns, es, ls = dtyped_ints(v)
+    c = {"nodes": ns, "edges": es, "labels": ls, "missing": None, "track_layout": v["track_layout"]}
+    return arrays_req(c), data_req(c)
+
+
+def dtyped_verdict(v, r):
+    """(key, message) of the violation shown by observation r of impl_dtyped(v), or None — oracle on the integer values"""
+    c, loff = v["case"], v["loff"]
+    s_valid, s_bad = spec_oracle(c["nodes"], c["labels"], c["edges"])
+    want_bad = [x + loff for x in s_bad]
+    dt = (f"node/edge/tracklet-id dtypes {v['nd']}/{v['ed']}/{v['ld']}, node ids shifted by {v['off']}, tracklet ids by {loff}, "
+          f"layout {v['layout']}")
+    if "exc" in r:
+        return "C13:exception-for-integer-dtype", f"validate_tracklets raised {r['exc']} for {dt}"
+    if r["valid"] != s_valid:
+        return "C13:verdict-depends-on-dtype", f"{dt}: got {r['valid']} {r['bad']}, the definition says {s_valid} {want_bad}"
+    if r["bad"] != want_bad:
+        if r["bad"] == [wrap64(x) for x in want_bad] and any(x >= 2 ** 63 for x in want_bad):
+            return ("C13:uint64-id-wrapped-in-message",
+                    f"{dt}: the verdict is right but the messages name {r['bad']} instead of the offending tracklet ids {want_bad}")
+        return "C13:verdict-depends-on-dtype", f"{dt}: got {r['valid']} {r['bad']}, the definition says {s_valid} {want_bad}"
+    want_vd = "ok" if s_valid else "ValueError"
+    if r["vd"]["outcome"] != want_vd:
+        return ("C13:verdict-depends-on-dtype", f"{dt}: validate_data(tracklet=True) ended in {r['vd']['outcome']}, the definition says valid={s_valid}")
+    if r["modified"]:
+        return "C13:validator-modifies-input", f"tracklet validation modified its argument arrays ({dt})"
+    return None
+
+
+def gen_dtyped(rng, c, j):
+    ii = np.iinfo
+    ids = c["nodes"] + [x for e in c["edges"] for x in e]
+    lo, hi = min(ids), max(ids)
+    llo, lhi = min(c["labels"]), max(c["labels"])
+    nd = rng.choice(INT_DTYPES)
+    ed = nd if rng.random() < 0.5 else rng.choice(INT_DTYPES)
+    ld = rng.choice(INT_DTYPES)
+    if j % 6 == 0:
+        nd = ed = "uint64"
+        ld = rng.choice(["uint64", "uint64", "int64", "uint8"])
+
+    def pick(dts, a, b):
+        omin = max(int(ii(d).min) for d in dts) - a
+        omax = min(int(ii(d).max) for d in dts) - b
+        if omin > omax:
+            return None
+        cands = [omin, omax, 0, 2 ** 63 - 1 - b, 2 ** 63 - a, 2 ** 63 - (a + b) // 2 - 1, 2 ** 53 + 1, -(2 ** 63) - a, rng.randint(omin, omax)]
+        cands = [x for x in cands if omin <= x <= omax]
+        return rng.choice(cands)
+    off = pick((nd, ed), lo, hi)
+    if off is None:
+        nd = ed = "int64"
+        off = pick((nd, ed), lo, hi)
+    loff = pick((ld,), llo, lhi)
+    if loff is None:
+        ld = "int64"
+        loff = pick((ld,), llo, lhi)
+    return {"case": {"nodes": c["nodes"], "labels": c["labels"], "edges": c["edges"]}, "nd": nd, "ed": ed, "ld": ld, "off": off, "loff": loff,
+            "layout": rng.choice(LAYOUTS), "track_layout": TRACK_LAYOUTS[j % 3]}
+
+
+def run_dtyped(ck, drv, cases):
+    pool = [c for c in cases if c.get("missing") is None and c.get("dtype") is None and c["nodes"] and in_domain(c)
+            and all(0 <= x <= 120 for x in c["nodes"] + c["labels"] + [y for e in c["edges"] for y in e])]
+    n = 2500 if ck.quick else 16000
+    fixed = [  # the corpus shape of the known finding, and ids straddling 2^63
+        {"case": {"nodes": [1, 2, 3], "labels": [1, 1, 1], "edges": [[1, 2]]}, "nd": "uint64", "ed": "uint64", "ld": "uint64",
+         "off": 0, "loff": 2 ** 63, "layout": "plain", "track_layout": "tracklet-only"},
+        {"case": {"nodes": [1, 2, 3], "labels": [7, 7, 9], "edges": [[1, 2], [2, 3]]}, "nd": "uint64", "ed": "uint64", "ld": "uint64",
+         "off": 2 ** 63 - 2, "loff": 2 ** 63 - 8, "layout": "readonly", "track_layout": "lineage,tracklet"},
+        {"case": {"nodes": [1, 2, 3], "labels": [7, 7, 9], "edges": [[1, 2], [2, 3]]}, "nd": "int8", "ed": "int64", "ld": "int16",
+         "off": -129, "loff": -(2 ** 15) - 7, "layout": "noncontiguous", "track_layout": "tracklet,lineage"}]
+    vs = fixed + [gen_dtyped(ck.rng, ck.rng.choice(pool), j) for j in range(n)]
+    reqs = [dtyped_reqs(v) for v in vs]
+    m_arr = drv.ask([a for a, _ in reqs])
+    m_dat = drv.ask([d for _, d in reqs])
+    if m_arr is None or m_dat is None:
+        ck.broken.append({"what": "driver Drivers/C13.lean (dtype stream)", "detail": drv.broken})
+    hist = {}
+    for i, (v, r) in enumerate(zip(vs, common.pmap(impl_dtyped, vs, chunksize=128))):
+        ns, es, ls = dtyped_ints(v)
+        beyond = any(x >= 2 ** 63 for x in ns + ls)
+        neg = any(x < 0 for x in ns + ls)
+        ck.case({"dtyped": v}, f"dtyped-{'same' if v['nd'] == v['ed'] else 'mixed'}-{v['layout']}"
+                + ("-beyond-int64" if beyond else "") + ("-negative" if neg else ""))
+        k = f"{v['nd']}/{v['ed']}/{v['ld']}"
+        hist[k] = hist.get(k, 0) + 1
+        bad = dtyped_verdict(v, r)
+        if bad:
+            ck.fail(bad[0], bad[1], {"dtyped": v}, r, None)
+        if m_arr is not None and m_dat is not None:
+            ma, md = m_arr[i], m_dat[i]
+            if "err" in ma or "err" in md:
+                ck.corr_broken("C13:driver", {"dtyped": v}, r, [ma, md])
+                continue
+            if "exc" in r or ma.get("valid") != r["valid"] or ma.get("messages") != r["messages"]:
+                ck.corr_broken("C13:validateTrackletsArrays", {"dtyped": v}, r, ma)
+            if not same_vd(md, r["vd"]):
+                ck.corr_broken("C13:validateDataTracks", {"dtyped": v}, r["vd"], md)
+    ck.extra["dtyped_cases"] = len(vs)
+    ck.extra["dtyped_dtype_triples_seen"] = len(hist)
+
+
+# ----------------------------------------------------------------- histories on ONE in-memory geff object
+H_DECLARES = {"tracklet-only": [["tracklet", "trk"]], "lineage-only": [["lineage", "lin"]],
+              "tracklet,lineage": [["tracklet", "trk"], ["lineage", "lin"]], "lineage,tracklet": [["lineage", "lin"], ["tracklet", "trk"]],
+              "none": None}
+
+
+def _h_geff(h, labels):
+    import geff_spec
+
+    c = h["case"]
+    tnp = H_DECLARES[h["declares"]]
+    names = ["trk", "lin"] if h["declares"] != "lineage,tracklet" else ["lin", "trk"]
+    md = geff_spec.GeffMetadata(
+        geff_version="1.0.0", directed=True,
+        node_props_metadata={k: geff_spec.PropMetadata(identifier=k, dtype="int64") for k in names},
+        edge_props_metadata={}, track_node_props=None if tnp is None else {k: v for k, v in tnp})
+    lay = h.get("layout", "plain")
+    mk = lambda vals, dt: _lay(np.asarray(vals, dtype=dt), lay)  # noqa: E731
+    props = {}
+    for k in names:
+        if k in h.get("absent", []):
+            continue
+        miss = h["trk_missing"] if k == "trk" else h["lin_missing"]
+        props[k] = {"values": np.asarray(labels if k == "trk" else h["lin"], dtype=np.int64) if k == "trk" else mk(h["lin"], np.int64),
+                    "missing": None if miss is None else mk(miss, bool)}
+    return {"metadata": md, "node_ids": mk(c["nodes"], np.int64), "edge_ids": _lay(np.asarray(c["edges"], dtype=np.int64).reshape(-1, 2), lay),
+            "node_props": props, "edge_props": {}}
+
+
+def impl_history(h):
+    """ONE in-memory geff object validated 3-6 times with re-used ValidationConfig objects (tracklet / lineage / both), the
+    caller editing the tracklet-id array IN PLACE between some calls.  Per call: outcome + exception args verbatim, the same
+    on a FRESH geff with a fresh config, whether any array of the geff or the config object changed."""
+    from geff.validate.data import ValidationConfig
+
+    from harness.corr.C12 import snapshot, snapshot_diff
+
+    labels = list(h["case"]["labels"])
+    g = _h_geff(h, labels)
+    cfgs = {}
+    out = []
+    for st in h["steps"]:
+        if st.get("edit") is not None and "trk" in g["node_props"]:
+            i, x = st["edit"]
+            g["node_props"]["trk"]["values"][i] = x
+            labels[i] = x
+        key = tuple(st["cfg"])
+        cfg = cfgs.setdefault(key, ValidationConfig(tracklet=bool(key[0]), lineage=bool(key[1])))
+        dump0 = cfg.model_dump()
+        before = snapshot(g)
+        r = vd_outcome(g, cfg)
+        out.append({"shared": r, "fresh": vd_outcome(_h_geff(h, labels), ValidationConfig(tracklet=bool(key[0]), lineage=bool(key[1]))),
+                    "modified": bool(snapshot_diff(before, snapshot(g))), "cfg_changed": cfg.model_dump() != dump0,
+                    "labels": list(labels)})
+    return out
+
+
+def history_reqs(h):
+    """one `data` request per step, with the contents the geff has at that step"""
+    c = h["case"]
+    labels = list(c["labels"])
+    reqs = []
+    for st in h["steps"]:
+        if st.get("edit") is not None and "trk" not in h.get("absent", []):
+            labels[st["edit"][0]] = st["edit"][1]
+        props = []
+        for k in (["trk", "lin"] if h["declares"] != "lineage,tracklet" else ["lin", "trk"]):
+            if k in h.get("absent", []):
+                continue
+            props.append([k, {"values": [str(x) for x in (labels if k == "trk" else h["lin"])],
+                              "missing": h["trk_missing"] if k == "trk" else h["lin_missing"]}])
+        reqs.append({"op": "data", "cfg": {"tracklet": bool(st["cfg"][0]), "lineage": bool(st["cfg"][1])}, "tnp": H_DECLARES[h["declares"]],
+                     "props": props, "nodes": [str(x) for x in c["nodes"]], "edges": [[str(a), str(b)] for a, b in c["edges"]]})
+    return reqs
+
+
+def history_expected(h, st, labels):
+    """model-free: which check fires first (tracklet before lineage), from the two oracles; None = not decidable here"""
+    from harness.corr.C12 import lineage_oracle
+
+    c = h["case"]
+    n = len(c["nodes"])
+    tnp = H_DECLARES[h["declares"]]
+    if tnp is None:
+        return "ok"
+    decl = dict((k, v) for k, v in tnp)
+    for flag, kind, pn, miss, vals in ((st["cfg"][0], "tracklet", "trk", h["trk_missing"], labels),
+                                      (st["cfg"][1], "lineage", "lin", h["lin_missing"], h["lin"])):
+        if not flag or kind not in decl:
+            continue
+        if pn in h.get("absent", []) or (miss is not None and len(miss) != n):
+            return None     # KeyError / numpy IndexError today: what the code does, not something the property prescribes
+        if kind == "tracklet":
+            keep = [i for i in range(n) if not (miss and miss[i])]
+            ok, _ = spec_oracle([c["nodes"][i] for i in keep], [vals[i] for i in keep], c["edges"])
+        else:
+            ok, _ = lineage_oracle({"nodes": c["nodes"], "labels": vals, "edges": c["edges"], "missing": miss})
+        if not ok:
+            return f"Found invalid {kind}s:\n"
+    return "ok"
+
+
+def gen_history(rng, pool, j):
+    c = rng.choice(pool)
+    n = len(c["nodes"])
+    good, bad = lineage_labellings(c, f"hist:{j}")
+    lin = bad if (bad is not None and rng.random() < 0.35) else good
+    mask = lambda p: [rng.random() < p for _ in range(n)]  # noqa: E731
+    h = {"case": {"nodes": c["nodes"], "labels": c["labels"], "edges": c["edges"]}, "lin": lin,
+         "trk_missing": mask(0.25) if rng.random() < 0.3 else None, "lin_missing": mask(0.25) if rng.random() < 0.2 else None,
+         "declares": rng.choice(["tracklet,lineage", "lineage,tracklet", "tracklet,lineage", "lineage,tracklet", "tracklet-only", "lineage-only", "none"]),
+         "layout": rng.choice(["plain", "plain", "noncontiguous", "fortran", "bigendian", "rowstrided"]), "absent": [], "steps": []}
+    r = rng.random()
+    if r < 0.04:
+        h["trk_missing"] = [rng.random() < 0.3 for _ in range(n + rng.choice([-1, 1, 2]))]
+    elif r < 0.07:
+        h["lin_missing"] = [rng.random() < 0.3 for _ in range(n + rng.choice([-1, 1]))]
+    elif r < 0.12:
+        h["absent"] = [rng.choice(["trk", "lin"])]
+    elif r < 0.14:
+        h["trk_missing"] = []      # numpy accepts an EMPTY boolean mask against any length: it selects nothing
+    for _ in range(rng.randint(3, 6)):
+        st = {"cfg": rng.choice([[1, 0], [1, 1], [0, 1], [1, 1], [1, 0]]), "edit": None}
+        if rng.random() < 0.35:
+            st["edit"] = [rng.randrange(n), rng.choice(c["labels"] + [777])]
+        h["steps"].append(st)
+    return h
+
+
+def judge_history(ck, h, outs, mo):
+    bad = []
+    for k, (st, r) in enumerate(zip(h["steps"], outs)):
+        sig = lambda o: (o["outcome"], tuple(o.get("args") or ()))  # noqa: E731
+        if sig(r["shared"]) != sig(r["fresh"]):
+            bad.append(("C13:history-dependent-verdict", f"call {k} (cfg tracklet/lineage={st['cfg']}) on the SAME in-memory geff object with a re-used "
+                        f"ValidationConfig ended in {r['shared']}, a fresh geff with a fresh config in {r['fresh']}"))
+        if r["modified"]:
+            bad.append(("C13:validator-modifies-input", f"call {k}: validate_data modified an array of the in-memory geff it validated"))
+        if r["cfg_changed"]:
+            bad.append(("C13:validate-modifies-config", f"call {k}: validate_data changed the caller's ValidationConfig object"))
+        want = history_expected(h, st, r["labels"])
+        got = r["fresh"]["outcome"] if r["fresh"]["outcome"] != "ValueError" else (r["fresh"].get("args") or [""])[0].split("\n")[0] + "\n"
+        if want is not None and want != got:
+            bad.append(("C13:validate_data-order-of-checks", f"call {k} (cfg tracklet/lineage={st['cfg']}, declares {h['declares']}): validate_data ended in "
+                        f"{got!r}; the checks in documented order (tracklet, then lineage) on the ids that are not missing give {want!r}"))
+        if mo is not None:
+            m = mo[k]
+            if "err" in m:
+                ck.corr_broken("C13:driver", {"history": h}, r, m)
+            elif not same_vd(m, r["shared"]):
+                ck.corr_broken("C13:validateDataTracks", {"history": h, "step": k}, r["shared"], m)
+    return bad
+
+
+def run_histories(ck, drv, cases):
+    pool = [c for c in cases if c.get("missing") is None and c.get("dtype") is None and c["nodes"] and in_domain(c)]
+    n = 700 if ck.quick else 5000
+    hs = [gen_history(ck.rng, pool, j) for j in range(n)]
+    flat = [r for h in hs for r in history_reqs(h)]
+    mflat = drv.ask(flat)
+    if mflat is None:
+        ck.broken.append({"what": "driver Drivers/C13.lean (history stream)", "detail": drv.broken})
+    pos = 0
+    oh = {}
+    for h, outs in zip(hs, common.pmap(impl_history, hs, chunksize=32)):
+        k = len(h["steps"])
+        mo = None if mflat is None else mflat[pos:pos + k]
+        pos += k
+        ck.case({"history": h}, f"history-{k}-{h['declares']}" + ("-absent" if h["absent"] else ""))
+        for r in outs:
+            key = r["shared"]["outcome"] if r["shared"]["outcome"] != "ValueError" else (r["shared"].get("args") or ["?"])[0].strip()
+            oh[key] = oh.get(key, 0) + 1
+        for key, what in judge_history(ck, h, outs, mo)[:1]:
+            ck.fail(key, what, {"history": h}, outs, None)
+    ck.extra["geff_object_histories"] = n
+    ck.extra["geff_object_history_outcomes"] = oh
+
+
 # ----------------------------------------------------------------- the check
 def to_req(c):
     return {"nodes": [str(x) for x in c["nodes"]], "labels": [str(x) for x in c["labels"]],
@@ -667,7 +1068,35 @@ def in_domain(c):
     return is_dag(c["edges"])
 
 
-def judge(ck, c, im, mo):
+def judge_verbatim(ck, c, im, mo_arrays, mo_data, dom, s_valid, s_bad):
+    """messages of the direct call and outcome/exception arguments of validate_data(tracklet=True), compared CHARACTER BY
+    CHARACTER with what the Lean model renders (`validateTrackletsArrays`, `validateDataTracks`); plus a model-free verdict
+    on the validate_data outcome for in-domain cases"""
+    vd = im.get("vd")
+    if mo_arrays is not None and "messages" in im:
+        if "err" in mo_arrays:
+            ck.corr_broken("C13:driver", c, im, mo_arrays)
+        elif mo_arrays.get("valid") != im["valid"] or mo_arrays.get("messages") != im["messages"]:
+            ck.corr_broken("C13:validateTrackletsArrays", c, {"valid": im["valid"], "messages": im["messages"]}, mo_arrays)
+    if mo_data is not None and vd is not None:
+        if "err" in mo_data:
+            ck.corr_broken("C13:driver", c, vd, mo_data)
+        elif not same_vd(mo_data, vd):
+            ck.corr_broken("C13:validateDataTracks", c, vd, mo_data)
+    if dom and vd is not None:
+        want = "ok" if s_valid else "ValueError"
+        if vd["outcome"] != want:
+            ck.fail("C13:validate_data-verdict", f"validate_data(tracklet=True) ended in {vd['outcome']} {vd.get('args')}, the definition says "
+                    f"valid={s_valid} (offending {s_bad})", c, vd, {"valid": s_valid, "bad": s_bad})
+        elif want == "ValueError":
+            args = vd.get("args") or []       # the property asks for a message naming the tracklet, not for an argument layout
+            named = [int(mm.group(1)) for ln in "\n".join(str(a) for a in args).split("\n") if (mm := MSG.match(ln))]
+            if named != s_bad and named != [wrap64(x) for x in s_bad]:
+                ck.fail("C13:validate_data-wrong-offenders", f"validate_data raised ValueError{tuple(args)!r}: names {named}, the offending "
+                        f"tracklets are {s_bad}", c, vd, {"valid": s_valid, "bad": s_bad})
+
+
+def judge(ck, c, im, mo, mo_arrays=None, mo_data=None):
     """compare implementation with the definition (in-domain) and with the model (always)"""
     dom = in_domain(c)
     masked = c.get("missing") is not None
@@ -692,6 +1121,7 @@ def judge(ck, c, im, mo):
     if im.get("modified"):
         ck.fail("C13:validator-modifies-input", "tracklet validation changed its input arrays (a validator must not modify its input)",
                 c, im, "inputs unchanged")
+    judge_verbatim(ck, c, im, mo_arrays, mo_data, dom, s_valid, s_bad)
     if dom:
         expected = {"valid": s_valid, "bad": s_bad}
         if "exc" in im:
@@ -727,7 +1157,7 @@ def judge(ck, c, im, mo):
 
 
 def run(ck: common.Check):
-    ck.prove(["GeffProps.C13"])
+    ck.prove(["GeffProps.C13", "GeffProps.C13Inv", "GeffProps.C13Data"])
     ck.rule = ("cases = corpus + ALL labelled DAGs on <=4 nodes up to renaming of labels (both tiers) + all cyclic "
                "digraphs on <=3 (quick) / <=4 (thorough) nodes (model==implementation only) + all DAGs on <=4 nodes x "
                "every non-empty missing mask x labellings (through validate_data) + sampled DAGs on 5-6 nodes + random "
@@ -739,7 +1169,13 @@ def run(ck: common.Check):
                "object handed to 2-4 validate_data / read_to_memory / geff.read calls, the first on a geff that declares no "
                "tracklet property (none / lineage only / tracklet excluded from the load), the later ones on geffs declaring "
                "tracklets: model_dump() unchanged after every call, verdict equal to that of a fresh equal config and to the oracle; non-trivial = at least one edge or two ids; distinct = "
-               "distinct canonical JSON")
+               "distinct canonical JSON; VERBATIM layer: for every case above the rendered message strings (direct call) and the outcome class + exception "
+               "arguments of validate_data(tracklet=True) are compared character by character with the Lean model; + dtype stream: all 8 integer "
+               "dtypes chosen independently for node ids / edge ids / tracklet ids, values shifted to the limits of the dtypes (incl. negative ids and "
+               "uint64 >= 2^63), arrays plain / read-only / non-contiguous / row-strided / Fortran / big-endian, direct and through validate_data; "
+               "+ object histories: ONE in-memory geff (tracklet + lineage ids, independent missing masks, both key orders, sometimes a declared "
+               "property absent or a mask of the wrong / zero length) validated 3-6 times with re-used ValidationConfig objects over "
+               "{tracklet, lineage, both}, the tracklet-id array edited in place between calls")
     corpus_all = list(corpus())
     grid_corpus = [c for c in corpus_all if "lineage_labels" in c]     # regression inputs of the all-configs grid
     cases = [c for c in corpus_all if "lineage_labels" not in c and "steps" not in c]
@@ -784,8 +1220,19 @@ def run(ck: common.Check):
     model = drv.ask([to_req(c) for c in cases])
     if model is None:
         ck.broken.append({"what": "driver Drivers/C13.lean", "detail": drv.broken})
+    # verbatim layer: rendered messages (arrays op, unmasked cases) and validate_data outcome + exception args (data op, all)
+    direct_idx = [i for i, c in enumerate(cases) if c.get("missing") is None]
+    m_arr = drv.ask([arrays_req(cases[i]) for i in direct_idx])
+    m_dat = drv.ask([data_req(c) for c in cases])
+    if m_arr is None or m_dat is None:
+        ck.broken.append({"what": "driver Drivers/C13.lean (arrays/data op)", "detail": drv.broken})
+    arr_of = dict(zip(direct_idx, m_arr)) if m_arr is not None else {}
     for idx, (c, im) in enumerate(zip(cases, impl)):
-        judge(ck, c, im, None if model is None else model[idx])
+        judge(ck, c, im, None if model is None else model[idx], arr_of.get(idx), None if m_dat is None else m_dat[idx])
+    ck.extra["messages_compared_verbatim"] = len(arr_of)
+    ck.extra["validate_data_outcome_and_args_compared_verbatim"] = 0 if m_dat is None else len(m_dat)
+    run_dtyped(ck, drv, cases)
+    run_histories(ck, drv, cases)
 
     # the same labellings through validate_data (dispatch) and through a store + read_to_memory
     sample = [c for i, c in enumerate(cases) if c.get("missing") is None and in_domain(c) and c["nodes"] and i % 17 == 0]
@@ -852,6 +1299,9 @@ def run(ck: common.Check):
         "C13_iff assumes unique node ids (validated separately, C12) and an acyclic graph (the property's domain); "
         "on cyclic graphs the validator additionally rejects tracklets that are directed cycles",
         "the node named after 'extend backward/forward to node' is compared with the model too (not part of the property)",
+        "the f-string rendering of numpy int64 scalars, dict insertion order (loop order) and '\\n'.join are modelled and compared verbatim "
+        "on every case, not verified; KeyError for a declared-but-absent id property and numpy's IndexError for a mask of the wrong length "
+        "are what the code does (compared with the model), not something the property prescribes",
         "array layout (read-only, non-contiguous, Fortran order, big-endian) is beneath the model; a quarter of the cases "
         "hold their arrays in one of these forms, and every call is checked not to modify its input arrays",
     ]
@@ -859,6 +1309,24 @@ def run(ck: common.Check):
 
 def replay(rp):
     c = rp["case"]
+    if "dtyped" in c:
+        v = c["dtyped"]
+        r = impl_dtyped(v)
+        bad = dtyped_verdict(v, r)
+        print(json.dumps({"case": v, "impl": r, "violation": bad}))
+        print("REPLAY: property holds on this input" if bad is None else "REPLAY: property FAILS on this input")
+        return 0 if bad is None else 1
+    if "history" in c:
+        h = c["history"]
+        outs = impl_history(h)
+
+        class R0:
+            def corr_broken(self, *a, **k):
+                pass
+        bad = judge_history(R0(), h, outs, None)
+        print(json.dumps({"history": h, "impl": outs, "failures": bad}))
+        print("REPLAY: property holds on this input" if not bad else "REPLAY: property FAILS on this input")
+        return 0 if not bad else 1
     if "steps" in c:
         outs = impl_config_reuse(c)
 
@@ -903,6 +1371,8 @@ def replay(rp):
         s_valid, s_bad = spec_oracle(ln, ll, c["edges"])
         out["definition"] = {"valid": s_valid, "bad": s_bad}
         ok = "exc" not in im and im["valid"] == s_valid and [e["t"] for e in im["errors"]] == s_bad
+        if ok and im.get("vd") is not None:
+            ok = im["vd"]["outcome"] == ("ok" if s_valid else "ValueError")
         if ok and rp.get("key") in ("C13:validate_data-dispatch", "C13:read_to_memory"):
             r = impl_via_validate_data(c)
             r2 = impl_via_store(c)
